@@ -21,10 +21,10 @@ type Prop struct{}
 func (Prop) ID() string    { return "C20" }
 func (Prop) Level() string { return "exploration" }
 func (Prop) Rule() string {
-	return "lifecycle: every list of <= N components (N=5 quick, 7 thorough), each plain or runnable, x every single failure point (none, Init of i, Run of runnable i) x close-error mask variant, enumerated exhaustively; a case is non-trivial when at least one runnable component exists; distinct = (kinds, failure point, variant). nesting: every assignment of names {a,b,c} subsets to container levels of depth <= 3 (4 thorough), every name looked up from every level."
+	return "lifecycle: every list of <= N components (N=5 quick, 7 thorough), each plain or runnable, x every single failure point (none, Init of i, Run of runnable i) x close-error mask variant, enumerated exhaustively; a case is non-trivial when at least one runnable component exists; distinct = (kinds, failure point, variant). nesting: every assignment of names {a,b,c} subsets to container levels of depth <= 3 (4 thorough), every name looked up from every level. restart: every list of <= 4 (5 thorough) components with at least one runnable x every pair (f1, f2) of single failure points or none: the same container goes through epoch 1 (fault f1, or Start+Close), epoch 2 (fault f2, or Start+Close) and epoch 3 (Start+Close); every epoch must show exactly the call order of a fresh container."
 }
 func (Prop) Assumptions() []string {
-	return []string{"Close(ctx) is called once after a successful Start", "a component registered concurrently with Start (workload late-register) may or may not be started, but is never run without having been initialised"}
+	return []string{"Close(ctx) is called once after every successful Start and never after a failed one", "a component registered concurrently with Start (workload late-register) may or may not be started, but is never run without having been initialised"}
 }
 
 type lcCase struct {
@@ -108,6 +108,7 @@ func (Prop) Plan(tier string) []lib.Workload {
 	return []lib.Workload{
 		{Name: "lifecycle", Cases: len(enumLifecycle(maxN(tier))), Exhaustive: true, MinNontrivial: 100, Batches: 4},
 		{Name: "nesting", Cases: len(enumNesting(maxDepth(tier))), Exhaustive: true, MinNontrivial: 100, Batches: 4},
+		{Name: "restart", Cases: len(enumRestart(restartMaxN(tier))), Exhaustive: true, MinNontrivial: 500, Batches: 4},
 		{Name: "late-register", Cases: lateCases, Exhaustive: true, MinNontrivial: lateCases / 2, Batches: 4, CaseTimeout: 2 * time.Minute},
 	}
 }
@@ -227,6 +228,8 @@ func (Prop) RunCase(c *lib.Case) {
 		runNesting(c)
 	case "late-register":
 		runLateRegister(c)
+	case "restart":
+		runRestart(c)
 	}
 }
 
